@@ -161,6 +161,18 @@ def check(tree, rep, tier='quick', seed=0):
                     rep.notes.append(f'stale gate (declaration removed): {key}')
                 continue
             n_g += 1
+            if g.get('with'):
+                # a composite declaration: refused only together with its companion answers (confirmed by reading); the named
+                # reader must still refuse by itself under the joint assumption
+                key = f'{y}/{atom}={val}&' + '&'.join(f'{a}={v}' for a, v in sorted(g['with'].items()))
+                cl = ga.classify_all(atom, val, context=dict(g['with']))
+                want = set(g.get('readers', []))
+                s1 = {'.'.join(k) for k, (c, _) in cl.items() if c == 'S1'}
+                rep.ob('R9.1', key, want <= s1,
+                       f'{atom} = {val} together with {g["with"]} ({g.get("what", "")}) used to make {sorted(want)} refuse; now: {[(".".join(k), c) for k, (c, _) in cl.items()]} - '
+                       'the unsupported combination is declared, consulted and no longer refused', '',
+                       sample={'gate': atom, 'with': g['with'], 'refusing_readers': sorted(s1)})
+                continue
             cl = classify(ga, atom, val, g.get('mode', 'plain'))
             s1 = [k for k, (c, _) in cl.items() if c == 'S1']
             rep.ob('R9.1', key, bool(s1),
@@ -200,7 +212,7 @@ def check(tree, rep, tier='quick', seed=0):
                     f'{y} {g["line"]} used to refuse whenever {g["amount"]} exceeds its limit; now some path answers without having tested it: the refusal depends on a further condition'),
                    ent['d'].where)
         if tier == 'thorough':
-            known = {(g['atom'], g['affirmative']) for g in frozen.get(y, [])}
+            known = {(g['atom'], g['affirmative']) for g in frozen.get(y, []) if not g.get('with')}
             for atom, val, mode, cl in infer(ga, skip=known | not_gates):
                 rep.notes.append(f'{y}: inference proposes a further gate {atom} = {val} [{mode}] (refusing readers {[".".join(k) for k, (c, _) in cl.items() if c == "S1"][:3]}); not in the frozen table')
             for (ln, amt) in sorted(have - {(g['line'], g['amount']) for g in data.get('limit_gates', []) if g['year'] == y}):
